@@ -641,10 +641,15 @@ def _replay(tdgl, script, base_tmp=None, sandbox=None, keep=False):
                 events.append({"ev": "fault", "where": "prompt", "outcome": "unprovoked", "at": "prompt"})
             return ["n", "", "N", "no", "q"][st["prompts"] % 5]
         _builtins.input = _answer
+        orig_cls_update = TDGLSolver.update
+
+        def _scripted_method(self, *args, **kw2):
+            return scripted_update(*args, **kw2)
         try:
-            solver = TDGLSolver(device, opts)
-            solver.update = scripted_update
-            sol = solver.solve()
+            # through the PUBLIC entry point tdgl.solve(): the wrapper around TDGLSolver.solve() is part of what a user
+            # runs (the scripted physics is installed on the class for the duration of the call)
+            TDGLSolver.update = _scripted_method
+            sol = tdgl.solve(device, opts)
             result = "none" if sol is None else "solution"
         except _Hang:
             # the call did not return: no action of the specification matches this result
@@ -662,6 +667,7 @@ def _replay(tdgl, script, base_tmp=None, sandbox=None, keep=False):
             signal.alarm(0)
             signal.signal(signal.SIGALRM, old_handler)
             _builtins.input = orig_input
+            TDGLSolver.update = orig_cls_update
             DH.__enter__, DH.__exit__, DH.save_time_step = orig_enter, orig_exit, orig_save
             DH.save_mesh, _Solution.to_hdf5 = orig_save_mesh, orig_to_hdf5
         if sol is not None:
